@@ -75,7 +75,7 @@ type obSummary struct {
 }
 
 func explicitKind(kind string) bool {
-	return kind == "post" || kind == "cs" || kind == "onpanic" || strings.HasPrefix(kind, "loop") || kind == "go" || kind == "lemma"
+	return kind == "post" || kind == "cs" || kind == "onpanic" || strings.HasPrefix(kind, "loop") || kind == "go" || kind == "lemma" || kind == "at" || kind == "atomic" || kind == "immutable" || kind == "lockset"
 }
 
 func cmdCheck(args []string) int {
@@ -132,6 +132,9 @@ func cmdCheck(args []string) int {
 				sels = append(sels, funcSel{d, n})
 			}
 		}
+		if _, err := os.Stat(pkgFile); err == nil && scansServe(db, P) {
+			sels = append(sels, funcSel{d, "package"})
+		}
 	}
 	if len(sels) == 0 {
 		fmt.Fprintf(os.Stderr, "check: no function under contract serves %s\n", P)
@@ -174,11 +177,16 @@ func cmdCheck(args []string) int {
 				label = d + ":" + n
 			}
 			funcs = append(funcs, label)
-			if e.funcs[n] == nil {
+			var res *UnitResult
+			var err error
+			if n == "package" {
+				res = e.PackageScans()
+			} else if e.funcs[n] == nil {
 				unverified = append(unverified, label+": function not found in package (renamed or removed?)")
 				continue
+			} else {
+				res, err = e.VerifyFunc(n)
 			}
-			res, err := e.VerifyFunc(n)
 			if err != nil {
 				unverified = append(unverified, label+": "+err.Error())
 				continue
@@ -356,6 +364,20 @@ func cmdCheck(args []string) int {
 		return 1
 	}
 	return 0
+}
+
+func scansServe(db *SpecDB, p string) bool {
+	for _, ps := range db.ImmutableProps {
+		if hasProp(ps, p) {
+			return true
+		}
+	}
+	for _, ps := range db.Atomic {
+		if hasProp(ps, p) {
+			return true
+		}
+	}
+	return p == "C03" && len(db.Guarded) > 0
 }
 
 func countInstances(ss []*obSummary) int {
